@@ -127,7 +127,8 @@ CLAIMED = {
                  "(g) set-up history: ProjMatrixByBin::clear_cache leaves every [view][segment] bucket empty (loop contracts, ghost bucket); the cache part of "
                  "ProjMatrixByBin::set_up recycles the collection before resizing it, so no row survives a set_up; ProjMatrixByBinUsingRayTracing::set_up returns early "
                  "only when it was set up before with the same projection data info, voxel size, origin, minimum and maximum image index, and clears the cache and sets already_setup on "
-                 "every other path - rows served after setting the matrix up for another geometry were computed for it."),
+                 "every other path - rows served after setting the matrix up for another geometry were computed for it; the eight parameter setters of ProjMatrixByBinUsingRayTracing preserve "
+                 "'already_setup => no parameter changed since set_up' (ghost updated at the parameter write)."),
         "note": ("assumed contracts: calculate_proj_matrix_elems_for_one_bin, apply_tof_kernel, SymmetryOperation::transform_proj_matrix_elems_for_one_bin, "
                  "std::unordered_map; rows are abstract ids in (b); the virtual dispatch over the 16 operation classes is a generated switch "
                  "(class list and constructor parameter order scraped and checked); flag normalisation of the constructor (90 => 180, view counts, "
